@@ -65,7 +65,7 @@ Lemma in_interval_unfold f x :
 Proof. unfold in_interval, ival_lo, ival_hi. destruct (half_gaps f) as [down up]. reflexivity. Qed.
 
 Lemma bin_rat_wf m q : wf (bin_rat m q).
-Proof. unfold wf, bin_rat. destruct q; cbn [snd]; try discriminate. apply N.pow_nonzero. discriminate. Qed.
+Proof. unfold wf, bin_rat. destruct q; cbn [snd]; try discriminate; try (apply N.pow_nonzero; discriminate). Qed.
 Lemma dec_rat_wf m e : wf (dec_rat m e).
 Proof. exact (dec_rat_den m e). Qed.
 Lemma radd_wf a b : wf a -> wf b -> wf (radd a b).
@@ -94,4 +94,162 @@ Lemma v_le_hi f : let v := bin_rat (fst f) (snd f) in fst v * snd (ival_hi f) <=
 Proof.
   cbv zeta. unfold ival_hi, radd. cbn [fst snd]. set (v := bin_rat (fst f) (snd f)). set (u := snd (half_gaps f)).
   nia.
+Qed.
+
+Lemma bin_rat_one_pos q : fst (bin_rat 1 q) <> 0.
+Proof.
+  unfold bin_rat. destruct q; cbn [fst]; try discriminate; try (apply N.neq_mul_0; split; [discriminate | apply N.pow_nonzero; discriminate]).
+Qed.
+Lemma bin_rat_pos m q : m <> 0 -> fst (bin_rat m q) <> 0.
+Proof.
+  intro H. unfold bin_rat. destruct q; cbn [fst]; try assumption; apply N.neq_mul_0; split; try assumption; apply N.pow_nonzero; discriminate.
+Qed.
+
+Lemma up_pos f : fst (snd (half_gaps f)) <> 0.
+Proof.
+  unfold half_gaps. destruct f as [mant q]. destruct ((mant =? P52) && (MIN_Q <? q)%Z); cbn [fst snd]; apply bin_rat_one_pos.
+Qed.
+Lemma down_pos f : fst (fst (half_gaps f)) <> 0.
+Proof.
+  unfold half_gaps. destruct f as [mant q]. destruct ((mant =? P52) && (MIN_Q <? q)%Z); cbn [fst snd]; apply bin_rat_one_pos.
+Qed.
+
+Lemma v_lt_hi f : let v := bin_rat (fst f) (snd f) in fst v * snd (ival_hi f) < fst (ival_hi f) * snd v.
+Proof.
+  cbv zeta. unfold ival_hi, radd. cbn [fst snd].
+  pose proof (bin_rat_wf (fst f) (snd f)) as W. pose proof (up_pos f) as U. pose proof (proj2 (half_gaps_wf f)) as WU.
+  unfold wf in *. set (v := bin_rat (fst f) (snd f)) in *. set (u := snd (half_gaps f)) in *.
+  assert (0 < fst u * snd v * snd v) as P by (repeat apply N.mul_pos_pos; lia). nia.
+Qed.
+Lemma lo_lt_v f : fst f <> 0 -> let v := bin_rat (fst f) (snd f) in fst (ival_lo f) * snd v < fst v * snd (ival_lo f).
+Proof.
+  intro Hf. cbv zeta. unfold ival_lo, rsub. cbn [fst snd].
+  pose proof (bin_rat_wf (fst f) (snd f)) as W. pose proof (down_pos f) as D. pose proof (proj1 (half_gaps_wf f)) as WD.
+  pose proof (bin_rat_pos (fst f) (snd f) Hf) as VP.
+  unfold wf in *. set (v := bin_rat (fst f) (snd f)) in *. set (d := fst (half_gaps f)) in *.
+  assert (0 < fst d * snd v * snd v) as P by (repeat apply N.mul_pos_pos; lia).
+  assert (0 < fst v * snd v * snd d) as P2 by (repeat apply N.mul_pos_pos; lia).
+  destruct (N.le_gt_cases (fst d * snd v) (fst v * snd d)) as [L|G]; nia.
+Qed.
+
+(* a point at or below the float that is outside the interval: everything below it is outside too *)
+Lemma outside_below f a b : fst f <> 0 -> wf a -> wf b ->
+  rle a (bin_rat (fst f) (snd f)) = true -> in_interval f a = false -> rle b a = true -> in_interval f b = false.
+Proof.
+  intros Hf Wa Wb Hav Ha Hba. rewrite in_interval_unfold in *.
+  pose proof (bin_rat_wf (fst f) (snd f)) as Wv. pose proof (ival_lo_wf f) as Wl. pose proof (ival_hi_wf f) as Wh.
+  pose proof (v_le_hi f) as VH. pose proof (v_lt_hi f) as VH'. cbv zeta in *. unfold wf in *.
+  apply rle_spec in Hav, Hba.
+  destruct (N.even (fst f)).
+  - apply andb_false_iff in Ha as [Ha|Ha].
+    + apply rle_false in Ha. apply andb_false_iff. left. apply rle_false.
+      exact (le_lt_trans_frac _ _ _ _ _ _ Wa Wb Wl Hba Ha).
+    + exfalso. apply rle_false in Ha.
+      pose proof (le_trans_frac _ _ _ _ _ _ Wv Hav VH) as T. lia.
+  - apply andb_false_iff in Ha as [Ha|Ha].
+    + apply rlt_false in Ha. apply andb_false_iff. left. apply rlt_false.
+      exact (le_trans_frac _ _ _ _ _ _ Wa Hba Ha).
+    + exfalso. apply rlt_false in Ha.
+      pose proof (le_lt_trans_frac _ _ _ _ _ _ Wv Wa Wh Hav VH') as T. lia.
+Qed.
+
+Lemma outside_above f a b : fst f <> 0 -> wf a -> wf b ->
+  rle (bin_rat (fst f) (snd f)) a = true -> in_interval f a = false -> rle a b = true -> in_interval f b = false.
+Proof.
+  intros Hf Wa Wb Hva Ha Hab. rewrite in_interval_unfold in *.
+  pose proof (bin_rat_wf (fst f) (snd f)) as Wv. pose proof (ival_lo_wf f) as Wl. pose proof (ival_hi_wf f) as Wh.
+  pose proof (lo_le_v f) as LV. pose proof (lo_lt_v f Hf) as LV'. cbv zeta in *. unfold wf in *.
+  apply rle_spec in Hva, Hab.
+  destruct (N.even (fst f)).
+  - apply andb_false_iff in Ha as [Ha|Ha].
+    + exfalso. apply rle_false in Ha.
+      pose proof (le_trans_frac _ _ _ _ _ _ Wv LV Hva) as T. lia.
+    + apply rle_false in Ha. apply andb_false_iff. right. apply rle_false.
+      exact (lt_le_trans_frac _ _ _ _ _ _ Wa Wh Ha Hab Wb).
+  - apply andb_false_iff in Ha as [Ha|Ha].
+    + exfalso. apply rlt_false in Ha.
+      pose proof (lt_le_trans_frac _ _ _ _ _ _ Wv Wl LV' Hva Wa) as T. lia.
+    + apply rlt_false in Ha. apply andb_false_iff. right. apply rlt_false.
+      exact (le_trans_frac _ _ _ _ _ _ Wa Ha Hab).
+Qed.
+
+(* ------------------------------------------------------------------ the two candidates bracket the float *)
+Definition cand_lo (v : rat) (x : Z) : N :=
+  match x with
+  | Zneg px => fst v * 10 ^ Npos px / snd v
+  | _ => fst v / (snd v * 10 ^ Z.to_N x)
+  end.
+
+Lemma candidates_eq v p k : candidates v p k =
+  let x := (p - Z.of_nat k + 1)%Z in [(cand_lo v x, x); (cand_lo v x + 1, x)].
+Proof. reflexivity. Qed.
+
+Lemma bracket v x : wf v ->
+  rle (dec_rat (cand_lo v x) x) v = true /\ rle v (dec_rat (cand_lo v x + 1) x) = true.
+Proof.
+  unfold wf. destruct v as [n d]. cbn [snd]. intro Hd. unfold cand_lo, dec_rat, rle. cbn [fst snd].
+  destruct x as [|px|px]; cbn [Z.to_N]; rewrite ?N.pow_0_r, ?N.mul_1_r.
+  - pose proof (N.mul_div_le n d Hd). pose proof (N.mul_succ_div_gt n d Hd). split; apply N.leb_le; lia.
+  - assert (d * 10 ^ N.pos px <> 0) as H0 by (apply N.neq_mul_0; split; [exact Hd | apply N.pow_nonzero; discriminate]).
+    pose proof (N.mul_div_le n _ H0). pose proof (N.mul_succ_div_gt n _ H0). split; apply N.leb_le; nia.
+  - pose proof (N.mul_div_le (n * 10 ^ N.pos px) d Hd). pose proof (N.mul_succ_div_gt (n * 10 ^ N.pos px) d Hd).
+    split; apply N.leb_le; nia.
+Qed.
+
+Lemma dec_rat_mono a b x : a <= b -> rle (dec_rat a x) (dec_rat b x) = true.
+Proof.
+  intro H. unfold dec_rat, rle. destruct x; cbn [fst snd]; apply N.leb_le; nia.
+Qed.
+
+(* no candidate passed the test: no non-zero multiple of 10^x is in the interval *)
+Lemma no_candidate_no_multiple f x : fst f <> 0 ->
+  best f (bin_rat (fst f) (snd f)) [(cand_lo (bin_rat (fst f) (snd f)) x, x); (cand_lo (bin_rat (fst f) (snd f)) x + 1, x)] = None ->
+  forall D, D <> 0 -> in_interval f (dec_rat D x) = false.
+Proof.
+  intros Hf Hb D HD. set (v := bin_rat (fst f) (snd f)) in *. set (lo := cand_lo v x) in *.
+  pose proof (bin_rat_wf (fst f) (snd f)) as Wv. fold v in Wv.
+  destruct (bracket v x Wv) as [B1 B2]. fold lo in B1, B2.
+  unfold best in Hb. cbn [filter fst snd] in Hb.
+  assert (forall c, c <> 0 -> (c = lo \/ c = lo + 1) -> in_interval f (dec_rat c x) = false) as OUT.
+  { intros c Hc Hor. destruct (in_interval f (dec_rat c x)) eqn:I; [|reflexivity]. exfalso.
+    apply N.eqb_neq in Hc.
+    destruct Hor as [-> | ->]; rewrite Hc, I in Hb; cbn [negb andb] in Hb.
+    - destruct (negb (lo + 1 =? 0) && in_interval f (dec_rat (lo + 1) x)); [|discriminate].
+      destruct (rlt _ _); [discriminate|]. destruct (rlt _ _); [discriminate|]. destruct (N.even lo); discriminate.
+    - destruct (negb (lo =? 0) && in_interval f (dec_rat lo x)); [|discriminate].
+      destruct (rlt _ _); [discriminate|]. destruct (rlt _ _); [discriminate|]. destruct (N.even lo); discriminate. }
+  destruct (N.le_gt_cases D lo) as [L|G].
+  - assert (lo <> 0) as Hlo by lia.
+    apply (outside_below f (dec_rat lo x) (dec_rat D x) Hf (dec_rat_wf _ _) (dec_rat_wf _ _) B1 (OUT lo Hlo (or_introl eq_refl))).
+    apply dec_rat_mono. exact L.
+  - assert (lo + 1 <> 0) as Hlo by lia.
+    apply (outside_above f (dec_rat (lo + 1) x) (dec_rat D x) Hf (dec_rat_wf _ _) (dec_rat_wf _ _) B2 (OUT (lo + 1) Hlo (or_intror eq_refl))).
+    apply dec_rat_mono. lia.
+Qed.
+
+(* MINIMALITY along the k-loop: when the search started at digit count k answers with a decimal whose last digit sits at
+   position x, then for every digit count k' tried before (k <= k', unit 10^(p-k'+1) coarser than 10^x) no non-zero
+   multiple of that unit lies in the interval *)
+Theorem shortest_from_minimal f p : fst f <> 0 -> forall fuel k c,
+  shortest_from fuel f (bin_rat (fst f) (snd f)) p k = Some c ->
+  forall k', (k <= k')%nat -> (snd c < p - Z.of_nat k' + 1)%Z ->
+  forall D, D <> 0 -> in_interval f (dec_rat D (p - Z.of_nat k' + 1)) = false.
+Proof.
+  intros Hf. induction fuel as [|fu IH]; intros k c H k' Hk Hx D HD; [discriminate|].
+  cbn [shortest_from] in H. rewrite candidates_eq in H. cbv zeta in H.
+  destruct (best f _ _) as [c'|] eqn:B.
+  - injection H as <-. exfalso. destruct (best_sound _ _ _ _ B) as [Hin _].
+    assert (snd c' = (p - Z.of_nat k + 1)%Z) as E by (destruct Hin as [<-|[<-|[]]]; reflexivity). lia.
+  - destruct (Nat.eq_dec k' k) as [->|NE].
+    + exact (no_candidate_no_multiple f _ Hf B D HD).
+    + apply (IH (S k) c H k'); [lia | exact Hx | exact HD].
+Qed.
+
+Theorem shortest_minimal f D x : fst f <> 0 -> shortest f = Some (D, x) ->
+  let p := lead_pos (bin_rat (fst f) (snd f)) in
+  forall k', (1 <= k')%nat -> (x < p - Z.of_nat k' + 1)%Z ->
+  forall D', D' <> 0 -> in_interval f (dec_rat D' (p - Z.of_nat k' + 1)) = false.
+Proof.
+  intros Hf H p k' Hk Hx D' HD'. unfold shortest in H. pose proof Hf as Hf'. apply N.eqb_neq in Hf'. rewrite Hf' in H.
+  exact (shortest_from_minimal f p Hf 17 1 (D, x) H k' Hk Hx D' HD').
 Qed.
